@@ -269,6 +269,7 @@ def run(tier, replay=None):
         "SPM / AFP / ACP / AOP are the same functions of the posterior array on both paths in the model (their sums and GPM <= SPM <= 1 are theorems)",
     ])
     chk.prove()
+    chk.require("cli:two-samples-of-equal-ploidy-with-different-inbreeding", "anything computed once per ploidy level would be shared between such samples")
     drv = C.Driver()
     r = C.rng(PROP)
     import time
@@ -476,6 +477,9 @@ def run(tier, replay=None):
                     # (two samples share a ploidy: anything computed once per ploidy level would be shared between them)
                     ds = synth.make_dataset(r, tmp, n_samples=4, n_loci=3, ploidies=(4, 2, 4, 6), max_snvs=3, depth=(2, 5))
                 chk.count("cli:dataset:" + ("deep(60-150)" if deep else "shallow(2-5)") + ":ploidies=" + "/".join(str(ds.ploidy[s_]) for s_ in ds.samples))
+                pl_ = [ds.ploidy[s_] for s_ in ds.samples]
+                if len(set(pl_)) < len(pl_):
+                    chk.count("cli:two-samples-of-equal-ploidy-with-different-inbreeding")
                 inb = tmp + "/inbreeding.tsv"
                 with open(inb, "w") as fh:
                     # a map by sample name: lines in reverse order of the samples, plus a sample that is not in the run
